@@ -1,4 +1,7 @@
-package props
+// Package pbt holds what every property check shares: a rapid runner that
+// turns a falsified property into a recorded violation with a replay file, and
+// the known-finding protocol.
+package pbt
 
 import (
 	"flag"
@@ -59,8 +62,8 @@ var (
 	lastFail   *failure
 )
 
-// failCase records the failing case and fails the rapid test.
-func failCase(t *rapid.T, kind string, c any, format string, args ...any) {
+// FailCase records the failing case and fails the rapid test.
+func FailCase(t *rapid.T, kind string, c any, format string, args ...any) {
 	msg := fmt.Sprintf(format, args...)
 	lastFailMu.Lock()
 	lastFail = &failure{kind: kind, c: c, msg: msg}
@@ -68,10 +71,10 @@ func failCase(t *rapid.T, kind string, c any, format string, args ...any) {
 	t.Fatalf("%s", msg)
 }
 
-// runRapid runs prop for `checks` cases with a seed derived from the
+// RunRapid runs prop for `checks` cases with a seed derived from the
 // recorder (VERIF_SEED, shard, stream). A failure is shrunk by rapid and
 // recorded as a violation with a replay file. Returns true if prop held.
-func runRapid(rec *ev.Recorder, name string, checks int, stream int, prop func(*rapid.T)) bool {
+func RunRapid(rec *ev.Recorder, name string, checks int, stream int, prop func(*rapid.T)) bool {
 	flag.Set("rapid.checks", strconv.Itoa(checks))
 	flag.Set("rapid.seed", strconv.FormatUint(rec.Seed(stream), 10))
 	flag.Set("rapid.nofailfile", "true")
@@ -109,19 +112,19 @@ func runRapid(rec *ev.Recorder, name string, checks int, stream int, prop func(*
 	return false
 }
 
-// finish writes the partial evidence and fails the Go test if there were
+// Finish writes the partial evidence and fails the Go test if there were
 // violations (the driver decides the exit code from the partial file).
-func finish(t *testing.T, rec *ev.Recorder) {
+func Finish(t *testing.T, rec *ev.Recorder) {
 	rec.Finish()
 	if n := rec.NViolations(); n > 0 {
 		t.Errorf("%d violation(s)", n)
 	}
 }
 
-// checkKnown runs the demonstration of an open known finding; if it still
+// CheckKnown runs the demonstration of an open known finding; if it still
 // fails the finding is reported as KNOWN-FINDING. stillFails must be a fixed
 // input, independent of the generators.
-func checkKnown(rec *ev.Recorder, id string, stillFails func() bool) bool {
+func CheckKnown(rec *ev.Recorder, id string, stillFails func() bool) bool {
 	if !ev.Open(id) {
 		return false
 	}
